@@ -19,6 +19,9 @@ pub(crate) mod verif_kani {
         assert!(SLICES.len() == 4, "OBL C04.caps.layout: four words are decoded");
         assert!(SLICES[0] == ("permitted", 4, 8) && SLICES[1] == ("inherited", 8, 12), "OBL C04.caps.layout: low words at bytes 4..8 / 8..12");
         assert!(SLICES[2] == ("permitted", 12, 16) && SLICES[3] == ("inherited", 16, 20), "OBL C04.caps.layout: high words at bytes 12..16 / 16..20");
+        // a version-2 capability xattr is exactly 20 bytes: the second pair of words must be decoded for it
+        assert!(frag_high_guard(&[0u8; 20]) && frag_high_guard(&[0u8; 24]) && !frag_high_guard(&[0u8; 12]) && !frag_high_guard(&[0u8; 19]),
+                "OBL C04.caps.layout: the high words are decoded exactly when the value has at least 20 bytes");
         let b: u8 = kani::any();
         let caps = [b, 0, 0, 2];
         assert!(frag_effective(&caps) == (b == 1), "OBL C04.caps.layout: the effective flag is the low bit of magic_etc (flags byte == 1)");
